@@ -3,12 +3,15 @@ from vlib.runner import Obl
 
 PROPERTY = "C09"
 EXPLANATION = (
+    "A-regex: the real set_span(regex), set_bookmark(before/after regex), remove_spans/remove_links (strip_tags) and delete(keep_tail) on the lxml model over "
+    "<p>t0<a>t1<span>t2</span>b</a>ab</p> with symbolic runs: text projection preserved, inserted spans hold full matches (one per match), marks sit at the match, "
+    "stripping keeps every character (tails of enclosing inline elements included), deleting keeps the tail. "
     "C09 (markup insertion never alters the text): K-seg - the real paragraph._by_regex_offset wrapper (set_span/set_link by offset) and the real "
     "Element._insert/_insert_find_text (marks by character position) run on stub trees whose strings are abstract segment strings, so text-node lengths, "
     "offset, length, position and probe are unbounded symbolic ints; the flattened text is compared pointwise before/after, the inserted element must hold "
     "exactly the designated range and sit exactly at the designated position; an offset beyond the text leaves the tree untouched. "
 )
-OUTSIDE = ("regex addressing and removal (strip_tags, remove_spans/links, delete keep_tail): pending symdom obligations; _insert_between (tracked changes); "
+OUTSIDE = ("_insert_between (tracked changes); insert_note/insert_annotation bodies; regexes outside the concrete family; text runs longer than 2 characters in the regex family; "
            "more than 5 text nodes; ranges crossing a text-node boundary (known finding C09-range-crosses-node)")
 ASSUMPTIONS = ["three tree shapes: text<el>t</el>tail; text<el>t</el><el>t</el>tail; text<el>t<el>t</el>tail</el>tail"]
 TRUSTED = _T
@@ -34,4 +37,20 @@ OBLIGATIONS = [
     _o("seg_insert_end", "insert_end", 1, U, {}),
     _o("seg_cross_A", "exact", 2, "companion of known finding C09-range-crosses-node", {"kind": "A", "inside": False},
        expect="finding", finding="C09-range-crosses-node"),
+]
+
+
+_AENC = ["src/odfdo/paragraph.py:_by_regex_offset (regex branch),Paragraph.set_span,set_bookmark,remove_spans,remove_links", "src/odfdo/element.py:Element._insert,_insert_before_after,_search_positive_position,strip_tags,_strip_tags,delete,_add_text"]
+_ASTUB = ["/verif/shadow/lxml (symdom)", "symsupport.SymEText/ETextShim, uncached xpath_compile"]
+_PATS = ["a", "ab", "b+", "[ab]b"]
+for _i, _p in enumerate(_PATS):
+    for _fn, _rep, _secs in (("span_regex", "span_regex", 95), ("bookmark_regex", "bookmark_regex", 140)):
+        OBLIGATIONS.append(Obl(name=f"{_fn}_pat{_i}", module="h_markup", func=_fn, shadow=True, timeout=_secs * 5, env={"VERIF_PAT": str(_i)}, extra={"pat": _i},
+                               replay="r_h_markup:" + _rep, weight=_secs, tier="quick" if _i in (1, 2) else "thorough",
+                               bounds=f"pattern {_p!r}; t0, t2 of <= 2 and t1 of <= 1 characters over {{a, b}}", encodes=_AENC, stubs=_ASTUB))
+OBLIGATIONS += [
+    Obl(name="strip_spans", module="h_markup", func="strip_spans", shadow=True, timeout=300, replay="r_h_markup:strip_spans", weight=40,
+        bounds="t0, t1, t2 of <= 2 characters over {a, b}; remove_spans and remove_links", encodes=_AENC, stubs=_ASTUB),
+    Obl(name="delete_keep_tail", module="h_markup", func="delete_keep_tail", shadow=True, timeout=200, replay="r_h_markup:delete_keep_tail", weight=20,
+        bounds="t0, t1, t2 of <= 2 characters over {a, b}; inner/outer element, keep_tail flag symbolic", encodes=_AENC, stubs=_ASTUB),
 ]
